@@ -92,7 +92,7 @@ func genSusp2(t *rapid.T) SuspCase {
 
 var suspPoints = []string{"put.indexGot", "put.primaryChecked", "put.primaryPut", "put.indexUpdated", "remove.indexGot", "remove.primaryChecked", "remove.indexRemoved"}
 
-const suspRuleText = "Suspended-call crash sub-campaign: after a generated sequential prefix one foreground call (overwrite / Put of a new key / Remove) is parked by the cooperative scheduler at a drawn point between its sub-steps (index lookup, primary check, primary put, index update / removal, freelist put), a second task writes other keys and completes a Flush, and the directory is copied while every task is parked or finished (a process crash at that instant); the image is opened and must satisfy the independent fsck, read every other key exactly as flushed and the suspended call's key as its old or its new value, and keep doing so after a primary GC cycle, an index GC cycle and a flush; second shape (two preemptions): a GC cycle is parked at a drawn point inside the cycle, a Flush with acknowledged unflushed writes pending runs up to a drawn point inside the flush pipeline, the GC cycle completes, and the image is taken with the flush still suspended - every key must then read one of the states it had since the last completed flush; third shape: a Flush is suspended at a drawn point, a writer task completes 1-3 calls, the flush completes, crash before the next flush; fourth shape: two overlapping Flush calls (the first suspended at a drawn point while the second runs as far as it gets, then at a later point while the writer's calls complete), then both complete and the process dies - what was acknowledged before the first flush began must be durable, the calls inside may or may not be, nothing else may be read"
+const suspRuleText = "Suspended-call crash sub-campaign: after a generated sequential prefix one foreground call (overwrite / Put of a new key / Remove) is parked by the cooperative scheduler at a drawn point between its sub-steps (index lookup, primary check, primary put, index update / removal, freelist put), a second task writes other keys and completes a Flush, and the directory is copied while every task is parked or finished (a process crash at that instant); the image is opened and must satisfy the independent fsck, read every other key exactly as flushed and the suspended call's key as its old or its new value, and keep doing so after a primary GC cycle, an index GC cycle and a flush; second shape (two preemptions): a GC cycle is parked at a drawn point inside the cycle, a Flush with acknowledged unflushed writes pending runs up to a drawn point inside the flush pipeline, the GC cycle completes, and the image is taken with the flush still suspended - every key must then read one of the states it had since the last completed flush; third shape: a Flush is suspended at a drawn point, a writer task completes 1-3 calls, the flush completes, crash before the next flush; fourth shape: two overlapping Flush calls (the first suspended at a drawn point while the second runs as far as it gets, then at a later point while the writer's calls complete), then both complete and the process dies - what was acknowledged before the first flush began must be durable, the calls inside may or may not be, nothing else may be read; fifth shape: a flush is suspended behind its pool swaps, a second Flush call is made, and if it returns while the first is still suspended the image is taken at that moment (a crash right after Flush returned nil): everything acknowledged before that call must be in it"
 
 func genSusp(t *rapid.T) SuspCase {
 	var c SuspCase
@@ -175,6 +175,33 @@ func genSusp3(t *rapid.T) SuspCase {
 	}
 	c.PointFlush = append([]string{"flush.stamped", "commit.marked"}, suspFlushPoints...)[rapid.IntRange(0, len(suspFlushPoints)+1).Draw(t, "flpoint")]
 	c.GCLow = []int{0, 50, 100}[rapid.IntRange(0, 2).Draw(t, "gclow")]
+	return c
+}
+
+// genSusp5: shape 4 - a Flush call that returns while another flush is still
+// writing. The first flush is suspended at a drawn point behind its pool
+// swaps; a second Flush call is made and, if it RETURNS while the first is
+// still suspended, the directory is copied at that moment: a process crash
+// right after a Flush call returned nil. Everything acknowledged before that
+// call began must be in the image.
+func genSusp5(t *rapid.T) SuspCase {
+	c := genSusp3(t)
+	c.Shape = 4
+	c.Other = nil
+	// Mostly puts of keys that are not stored yet (nothing superseded, so
+	// that no freelist work is pending either).
+	if weighted(t, "freshonly", []int{1, 3}) == 1 {
+		c.Prefix = []Op{{K: opPut, Key: 0, VLen: 3}, {K: opFlush}}
+		c.Unflushed = nil
+		for k := 1; k < len(c.Keys) && k <= 3; k++ {
+			c.Unflushed = append(c.Unflushed, Op{K: opPut, Key: k, VLen: 4 + k})
+		}
+	}
+	if len(c.Unflushed) == 0 {
+		c.Unflushed = []Op{{K: opPut, Key: len(c.Keys) - 1, VLen: 5}}
+	}
+	pts := []string{"mh.flush.swapped", "mh.flush.write", "mh.flush.written", "commit.primaryFlushed", "index.flush.swapped", "index.roll.create", "index.flush.write", "index.flush.written", "commit.indexFlushed", "fl.flush.swapped", "commit.freelistFlushed"}
+	c.PointFlush = pts[weighted(t, "flpoint4", []int{1, 1, 1, 1, 4, 1, 4, 3, 2, 1, 1})]
 	return c
 }
 
@@ -305,6 +332,41 @@ func runSusp2(c SuspCase, withFsck bool) (st suspStats, v *Violation) {
 	}
 	var img dirImage
 	snapped := false
+	if c.Shape == 4 {
+		// What was acknowledged before the second Flush call began (all of
+		// Unflushed) must be durable once that call has returned.
+		for k := range c.Keys {
+			allowed[k] = allowed[k][len(allowed[k])-1:]
+		}
+		sch := newScheduler()
+		sch.install()
+		sch.spawn("flush", func(yield func(string)) { s.Flush() })
+		var err2 error
+		returned := false
+		sch.spawn("flush2", func(yield func(string)) {
+			err2 = s.Flush()
+			returned = true
+		})
+		done := false
+		pol := snapWhenAlone{inner: singlePreemption{a: 0, point: c.PointFlush, n: 1, order: []int{1}}, done: &done, snap: func() {
+			// The first flush is about to be resumed at its point: the second
+			// call has either returned or waits for a lock.
+			if returned && err2 == nil && sch.tasks[1].state == tsDone && sch.lateArrivals == 0 {
+				img = readDirImage(dir)
+			}
+		}}
+		sch.run(pol, 6000)
+		sch.release()
+		sch.join(20 * time.Second)
+		sch.uninstall()
+		closeQuietly(s)
+		if img == nil {
+			return st, nil
+		}
+		st.snapped = true
+		st.overwrite = true
+		return suspRecover(c, st, img, allowed, "flush-returned-inside-another-flush@"+c.PointFlush, withFsck, enc)
+	}
 	if c.Shape == 2 || c.Shape == 3 {
 		// The state when the flush starts replaces everything before it: the
 		// flush completes before the crash, so what was acknowledged before it
@@ -448,6 +510,9 @@ func suspRecover(c SuspCase, st suspStats, img dirImage, allowedIn interface{}, 
 					if !found {
 						sym = "absent-but-durable"
 					}
+					if c.Shape == 4 {
+						return viol("recovery-"+sym+"|"+site+"|", 0, "key %d reads (%s, found=%v) after a crash right after a Flush call returned nil; that call was made while another flush was suspended at %s and returned without waiting for it, although the key's last acknowledged state before the call (%d state(s) allowed) was not on disk yet", k, shortBytes(got), found, c.PointFlush, len(allowed[k]))
+					}
 					if c.Shape == 3 {
 						return viol("recovery-"+sym+"|"+site+"|", 0, "key %d reads (%s, found=%v) after a crash that followed two overlapping Flush calls (the first suspended at %s while the second ran, then at %s while %d write call(s) completed; then both completed); the key had %d state(s) from the start of the first flush on, none of which this is", k, shortBytes(got), found, c.PointFlush, c.PointFlush2, len(c.Other), len(allowed[k]))
 					}
@@ -489,7 +554,7 @@ func suspRecover(c SuspCase, st suspStats, img dirImage, allowedIn interface{}, 
 }
 
 func runSusp(c SuspCase, withFsck bool) (st suspStats, v *Violation) {
-	if c.Shape >= 1 && c.Shape <= 3 {
+	if c.Shape >= 1 && c.Shape <= 4 {
 		return runSusp2(c, withFsck)
 	}
 	dir := newScratch("susp")
@@ -673,7 +738,9 @@ func runSuspCampaign(t *testing.T, ev *Evidence, n int, withFsck bool, keep func
 			return
 		}
 		var c SuspCase
-		switch weighted(rt, "shape", []int{2, 2, 1, 1}) {
+		switch weighted(rt, "shape", []int{2, 2, 1, 1, 1}) {
+		case 4:
+			c = genSusp5(rt)
 		case 1:
 			c = genSusp2(rt)
 		case 2:
@@ -689,6 +756,8 @@ func runSuspCampaign(t *testing.T, ev *Evidence, n int, withFsck bool, keep func
 			cl = append(cl, "suspended-flush-behind-gc:image-taken@"+c.PointFlush)
 		} else if st.snapped && c.Shape == 2 {
 			cl = append(cl, "call-inside-suspended-flush:image-taken@"+c.PointFlush)
+		} else if st.snapped && c.Shape == 4 {
+			cl = append(cl, "flush-returned-inside-another-flush:image-taken@"+c.PointFlush)
 		} else if st.snapped && c.Shape == 3 {
 			cl = append(cl, "call-inside-overlapping-flushes:image-taken@"+c.PointFlush+"+"+c.PointFlush2)
 		} else if st.snapped {
